@@ -53,7 +53,7 @@ META = dict(
                'photutils.psf.image_models:ImagePSF.evaluate',
                'photutils.psf.matching.fourier:create_matching_kernel',
                'photutils.psf.epsf:EPSFBuilder.__call__'],
-    bounds=('32 entry points x container in {ndarray, MaskedArray, Quantity, '
+    bounds=('33 entry points x container in {ndarray, MaskedArray, Quantity, '
             'view of a larger array} x {NaN present} x {negative pixels '
             'inside sources} x mask in {none, bool, int8} x error given; '
             'every feasible combination accepted by the entry point is run '
@@ -65,7 +65,7 @@ META = dict(
                  'symbolic for-all over data values is the frame condition in '
                  'the C02/C04/C07/C11/C14/C16/C17/C19 harnesses'],
     stubs=[],
-    outside=['entry points not in the list (plotting, I/O, WCS helpers)',
+    outside=['entry points not in the list (I/O, WCS helpers, model plotting)',
              'documented in-place mutators of their own object '
              '(SegmentationImage relabelling, profile normalize)'],
     min_obligations=100,
@@ -553,6 +553,50 @@ def _entries():
         stars = extract_stars(nd, tbl, size=11)
         EPSFBuilder(oversampling=2, maxiters=2, progress_bar=False)(stars)
     E['extract_stars+EPSFBuilder'] = (('ndarray', 'view'), e_epsf)
+
+    def e_plot(i):
+        import matplotlib
+        matplotlib.use('Agg')
+        import matplotlib.pyplot as plt
+        from photutils.aperture import (BoundingBox, EllipticalAnnulus,
+                                        EllipticalAperture,
+                                        RectangularAnnulus,
+                                        RectangularAperture)
+        from photutils.segmentation import SegmentationImage
+        fig, ax = plt.subplots()
+        try:
+            pos = np.array(POS)
+            apers = [CircularAperture(pos.copy(), 3.0),
+                     CircularAnnulus(pos.copy(), 3.0, 5.0),
+                     EllipticalAperture(pos.copy(), 4.0, 2.0, theta=0.3),
+                     EllipticalAnnulus(pos.copy(), 2.0, 4.0, 3.0, theta=0.3),
+                     RectangularAperture(pos.copy(), 4.0, 3.0, theta=0.2),
+                     RectangularAnnulus(pos.copy(), 2.0, 5.0, 3.0, theta=0.2),
+                     CircularAperture((10.0, 9.0), 2.0)]
+            i['extra'] = list(apers)
+            for ap in apers:
+                ap.plot(ax=ax, origin=(3, 2))
+                ap._to_patch(origin=(1.5, 2.5))
+                ap.bbox
+            BoundingBox(1, 8, 2, 9).plot(ax=ax, origin=(2, 1))
+            lab = np.zeros((40, 44), int)
+            lab[7:12, 8:13] = 4
+            lab[10:15, 28:33] = 9
+            i['extra'].append(lab)
+            segm = SegmentationImage(lab)
+            segm.plot_patches(ax=ax, origin=(3, 2), scale=2.0)
+            segm.imshow(ax=ax)
+            for cls, rad in ((RadialProfile, np.array([0, 1, 2, 4, 6.0])),
+                             (CurveOfGrowth, np.array([1, 2, 4, 6.0]))):
+                pr = cls(i['data'], (10.2, 9.1), rad, error=i['error'],
+                         mask=i['mask'])
+                pr.plot(ax=ax)
+                pr.plot_error(ax=ax)
+            b = Background2D(i['data'], (10, 11), mask=i['mask'])
+            b.plot_meshes(ax=ax, outlines=True)
+        finally:
+            plt.close(fig)
+    E['plotting'] = (('ndarray', 'view', 'quantity'), e_plot)
 
     def e_ellipse(i):
         geo = EllipseGeometry(30.0, 12.0, 4.0, 0.1, 0.3)
